@@ -224,7 +224,7 @@ def generate(rng, quick, c12=False):
             raise RuntimeError("spec encoder failed on %r: %r" % (c["enc"], o))
         if c["fn"] == "read_hybrid" and c.get("cut"):
             o = bytes(o)[:len(o) - c.pop("cut")]
-        if c["fn"] == "delta_unpack" and c["meta"].get("stale"):
+        if c["fn"] in ("delta_unpack", "page_delta") and c["meta"].get("stale"):
             o = _delta_stale_widths(bytes(o), c["meta"]["stale"])
         c["inp"] = (bytes(o) + (TRAIL if c.get("trail") else b"")).hex()
         c["enc_len"] = len(o)
@@ -1760,9 +1760,11 @@ def gen_page_delta(rng, quick):
                 vals, widths = _delta_values(rng, bits, n, 32, lambda m: wsel[m % 40], "random", 4)
                 adts = ["int64" if longval else "int32"] + (["int64"] if (version == 2 and not longval) else [])
                 for adt in adts:
-                    cases.append({"fn": "page_delta", "longval": longval, "version": version, "n": n, "adt": adt, "vals": [str(v) for v in vals],
-                                  "enc": ["delta_enc", bits, 128, 4, vals], "trail": False, "stream": "main",
-                                  "meta": {"max_width": max(widths) if widths else 0}})
+                    # (as other writers leave them: stale width bytes for the unneeded miniblocks; n = 33: one value left at a stale miniblock)
+                    for stale in ([None, [5, 9, 3]] if n in (33, 34, 5) else [None]):
+                        cases.append({"fn": "page_delta", "longval": longval, "version": version, "n": n, "adt": adt, "vals": [str(v) for v in vals],
+                                      "enc": ["delta_enc", bits, 128, 4, vals], "trail": False, "stream": "main",
+                                      "meta": {"max_width": max(widths) if widths else 0, "stale": stale}})
     return cases
 
 
